@@ -37,7 +37,7 @@ Definition addressed_is (own : registry) (addr : option cid) (md d : name) : Pro
   end.
 
 Definition accepts (own : registry) (f : flt) (from addr : option cid) (m : bmsg) : Prop :=
-  (forall t, f_type f = Some t -> b_type m = t) /\
+  (forall t, f_type f = Some t -> b_type m = TKnown t) /\
   (forall i, f_iface f = Some i -> b_iface m = i /\ i <> 0) /\
   (forall k, f_member f = Some k -> b_member m = k /\ k <> 0) /\
   (forall s, f_sender f = Some s -> sender_is own from s) /\
